@@ -421,6 +421,11 @@ def generate(rng, tier, index):
             files.insert(rng.randint(0, len(files)), imp)
             files.append(use)
         plan["validator"] = files
+        if rng.random() < 0.2:
+            # one of the files is not text at all in places (bytes that are
+            # not UTF-8): an invalid file like any other
+            plan["nonutf8"] = [rng.choice(files), rng.choice(
+                ["start", "end", "middle"])]
     return plan
 
 
@@ -449,6 +454,19 @@ def materialise(plan, scratch):
             os.makedirs(os.path.dirname(p), exist_ok=True)
             with open(p, "w", encoding="utf-8", newline="") as f:
                 f.write(t2)
+            bad = plan.get("nonutf8")
+            if bad and bad[0] == u:
+                raw = t2.encode("utf-8")
+                junk = b"# caf\xe9 \xff\xfe\n"
+                if bad[1] == "start":
+                    raw = junk + raw
+                elif bad[1] == "end":
+                    raw = raw + junk
+                else:
+                    k = raw.find(b"\n", len(raw) // 2) + 1
+                    raw = raw[:k] + junk + raw[k:]
+                with open(p, "wb") as f:
+                    f.write(raw)
     return store, _to_real(plan["top"], scratch)
 
 
@@ -642,7 +660,11 @@ def _execute(plan, out, scratch):
                               {"cls": None, "site": "validator.py:main"})
                 # no file arguments and standard input that is not a
                 # terminal: standard input is the configuration
-                with open(paths[0], encoding="utf-8") as f:
+                with open(paths[0], encoding="utf-8",
+                          errors="replace") as f:
+                    # (a file with undecodable bytes is fed to the stdin
+                    # variant with those bytes replaced: stdin is a text
+                    # stream of the harness's own making)
                     stext = f.read()
                 w.begin_op("validator-stdin")
                 sfull = [None]
